@@ -58,6 +58,10 @@ pub enum Variant {
     CrossWideCreates,
     /// the other direction: NARROW row creates, Merkle-path row of the WIDE (arity-4) table reads
     CrossNarrowCreates,
+    /// minimal two-table program: one plain permutation row in each Poseidon2 table, nothing
+    /// else (used with the backend that has NO extra table, i.e. the generic
+    /// `poseidon2_air_builders{,_d5}()`, see `library()`)
+    OneRowEach,
 }
 
 /// Creator row in table `creator`, then a two-row Merkle chain in table `reader` whose last row
@@ -186,6 +190,14 @@ macro_rules! backend_components {
                         Variant::MixedNarrowFirst => &[false, true],
                         Variant::MixedWideFirst => &[true, false],
                         Variant::Narrow => &[false],
+                        Variant::OneRowEach => {
+                            for tcfg in [CHALLENGER_CONFIG, WIDE_CONFIG] {
+                                let (o0, o1) = perm_row(&mut b, tcfg, true)?;
+                                let s = b.add(o0, o1);
+                                acc.push(s);
+                            }
+                            &[]
+                        }
                         Variant::CrossWideCreates => {
                             cross_rows(&mut b, WIDE_CONFIG, CHALLENGER_CONFIG, &mut acc)?;
                             &[]
@@ -209,6 +221,10 @@ macro_rules! backend_components {
                         total = b.mul(total, x);
                     }
                     b.tag(total, "total").map_err(|e| format!("{e:?}"))?;
+                    if variant == Variant::OneRowEach {
+                        let p = b.public_input();
+                        b.connect(total, p);
+                    } else {
                     // recompose table: coefficients -> extension element; decomposition of a
                     // computed value (reconnected through `recompose/coeff` where the backend
                     // switches that on: D=1 challenger inside a higher-degree circuit)
@@ -219,6 +235,7 @@ macro_rules! backend_components {
                     let q = b.mul(r, r2);
                     let p = b.public_input();
                     b.connect(q, p);
+                    }
                     b.build().map_err(|e| format!("build: {e:?}"))?
                     };
 
@@ -309,5 +326,16 @@ pub fn library() -> Vec<(String, LibFn)> {
         v.push((format!("lib:backend:{name}:cross-table-mmcs-index,wide-creates,narrow-merkle-row-reads"), Box::new(move || mixed(Variant::CrossWideCreates))));
         v.push((format!("lib:backend:{name}:cross-table-mmcs-index,narrow-creates,wide-merkle-row-reads"), Box::new(move || mixed(Variant::CrossNarrowCreates))));
     }
+    // Generic builders with two Poseidon2 tables: the circuit is prepared by the MIXED
+    // configuration (both Poseidon2 tables enabled and used), preprocessors / AIR builders come
+    // from the backend WITHOUT the extra table, i.e. `poseidon2_air_builders::<_, D>()` /
+    // `poseidon2_air_builders_d5()` (one unrestricted `Poseidon2AirBuilder`) + recompose.
+    // All four share one violation family (text before '|', see `compare` in main.rs).
+    for (name, _mixed, narrow) in fields {
+        let field = name.split(':').next().unwrap();
+        v.push((format!("{GENERIC_FAMILY}|{field}"), Box::new(move || narrow(Variant::OneRowEach))));
+    }
     v
 }
+
+pub const GENERIC_FAMILY: &str = "lib:generic-poseidon2_air_builders:two-poseidon2-tables,one-row-each";
